@@ -19,6 +19,7 @@ TT_SETS = {
     'scalar-zero': [Fraction(0)],
     'scalar-fractional': [Fraction(3, 16)],               # 2*tt/dt = 1.5 samples
     'mixed': [Fraction(0), Fraction(3, 16), Fraction(1, 4)],
+    'deepest-first': [Fraction(1, 2), Fraction(3, 16), Fraction(0)],      # travel times need not be given in ascending order
 }
 
 
@@ -136,7 +137,9 @@ def compare_2d(out, name, res, want, single):
 
 OPTS = [dict(tts=t, nodal=nd, reds=rd, trim=tr, start=sa, stt=s)
         for t in TT_SETS for nd in (True, False) for rd in ('scalar', 'array') for tr in (True, False) for sa in (True, False)
-        for s in ('0', '1/4') if not (rd == 'array' and t.startswith('scalar') and False)]
+        for s in ('0', '1/4') if not (rd == 'array' and t.startswith('scalar') and False)
+        and not (t == 'deepest-first' and (rd == 'array' or not nd))] + \
+       [dict(tts='deepest-first', nodal=True, reds='scalar', trim=tr, start=True, stt='3/4') for tr in (True, False)]
 
 
 @unit('C19', 'get_time_shift_motions', functions=[SF + 'get_time_shift_motions', SF + 'trim_to_length'], cases=OPTS, modes=('bounded',), opts=dict(histories=('prior', 'again')),
